@@ -232,6 +232,46 @@ def check_first(first, trailing, delivery, plain=False, scratch=None):
                 )
         if delivery == "bytearray" and bytes(src) != data:
             return Failure(case, "input bytearray was modified"), "parsed"
+        # "the untouched result": editing a second Pickled built from the same opcodes (an
+        # injection into a copy, an opcode of a newer protocol inserted) is not touching this one
+        try:
+            from fickling import fickle as F
+
+            q = Pickled(list(p))
+            q.insert(len(q) - 1, F.Memoize())
+            q.insert_python_eval("1+1")
+            Pickled(p).insert_python_exec("x = 1", run_first=False)
+        except Exception:  # noqa: BLE001 - the edit of the copy was refused
+            pass
+        try:
+            again = p.dumps()
+        except Exception as e:  # noqa: BLE001
+            return Failure(case, f"after a copy of the parse was edited, dumps() of the untouched original raises {e!r}"), "parsed"
+        if again != first:
+            return (
+                Failure(case, f"after a copy of the parse of {first[:60]!r} was edited (injection, newer opcode), the "
+                              f"untouched original re-serialises to {again[:60]!r}..."),
+                "parsed",
+            )
+        if plain and delivery in ("bytesio", "bytesio_offset", "file", "file_offset") and len(first) < 4096:
+            # the checked loader parses the same stream: like the stock load it stops after the
+            # first pickle (plain data is LIKELY_SAFE, so the load goes through)
+            import fickling
+
+            src.seek(start)
+            try:
+                fickling.load(src)
+            except Exception:  # noqa: BLE001 - refused (a verdict above LIKELY_SAFE): nothing to compare
+                return None, "parsed"
+            pos = src.tell()
+            if pos != start + n:
+                return (
+                    Failure(case, f"fickling.load left the stream ({delivery}) at offset {pos}, expected {start + n} "
+                                  f"(immediately after the first pickle) for {first!r} + {trailing!r}"),
+                    "parsed",
+                )
+            if src.read() != trailing:
+                return Failure(case, "fickling.load altered or consumed the bytes after the first pickle"), "parsed"
         return None, "parsed"
     finally:
         if fh is not None:
